@@ -12,6 +12,8 @@ def sized_binary(lengths=BOUNDARY_LENS, max_size=300):
     return st.one_of(
         st.sampled_from(lengths).flatmap(lambda n: st.binary(min_size=n, max_size=n)),
         st.binary(max_size=max_size),
+        # every length up to max_size with equal weight: st.binary alone is biased towards short strings
+        st.integers(0, max_size).flatmap(lambda n: st.binary(min_size=n, max_size=n)),
         st.sampled_from(lengths).map(lambda n: b"\x00" * n),
         st.sampled_from(lengths).map(lambda n: b"\xff" * n),
     )
